@@ -4,7 +4,7 @@
 [ -d /tmp/ben/eval ] || { mkdir -p /tmp/ben; git -C /repo worktree add -q --detach /tmp/ben/eval HEAD; }
 out=/verif/benign/RESULTS.txt
 : > $out.tmp
-for d in /verif/benign/[a-z]*-[a-e]; do
+for d in /verif/benign/[a-z]*-[a-h]; do
   props=$(python3 -c "import json;print(' '.join(json.load(open('$d/meta.json'))['checks']))")
   /verif/tools/beneval.sh $d/patch.diff $props >> $out.tmp
 done
